@@ -1,16 +1,26 @@
 from lark import Tree, Token
 
 
+class UnsupportedStructure(Exception):
+    """The receiver or index is not a plain name / literal path."""
+
+
 def extract_argument_structure(compiled: Tree) -> set[str]:
     var_map: set[str] = set()
     for thing in compiled.iter_subtrees():
-        if thing.data == "member_dot":
-            member_dot: str = _process_member_dot(thing)
-            var_map.add(member_dot)
+        # Receivers or indexes that are calls, parenthesised expressions,
+        # literals, etc. can not be expressed as a dotted path. They are
+        # skipped; any member access nested within them is visited on its own.
+        try:
+            if thing.data == "member_dot":
+                member_dot: str = _process_member_dot(thing)
+                var_map.add(member_dot)
 
-        if thing.data == "member_index":
-            member_index: str = _process_member_index(thing)
-            var_map.add(member_index)
+            if thing.data == "member_index":
+                member_index: str = _process_member_index(thing)
+                var_map.add(member_index)
+        except UnsupportedStructure:
+            continue
 
     return var_map
 
@@ -18,7 +28,7 @@ def extract_argument_structure(compiled: Tree) -> set[str]:
 def _process_member_dot(tree: Tree):
     if len(tree.children) != 2:
         # TODO: Not sure this is possible?
-        raise Exception(f"UNKNOWN MEMBER_DOT LENGTH! {len(tree.children)}: {tree}")
+        raise UnsupportedStructure(f"UNKNOWN MEMBER_DOT LENGTH! {len(tree.children)}: {tree}")
 
     # print(f"{len(tree.children)}: {tree.children[0]}")
 
@@ -39,13 +49,13 @@ def _process_member_dot(tree: Tree):
         return f"{_process_primary(root)}.{terminal}"
 
     # TODO: Is this possible?
-    raise Exception(f"UNKNOWN MEMBER_DOT ROOT TYPE! {root}")
+    raise UnsupportedStructure(f"UNKNOWN MEMBER_DOT ROOT TYPE! {root}")
 
 
 def _process_member_dot_arg(tree: Tree):
     if len(tree.children) != 3:
         # TODO: Not sure this is possible?
-        raise Exception(f"UNKNOWN MEMBER_DOT_ARG LENGTH! {len(tree.children)}: {tree}")
+        raise UnsupportedStructure(f"UNKNOWN MEMBER_DOT_ARG LENGTH! {len(tree.children)}: {tree}")
 
     # print(f"{len(tree.children)}: {tree.children[0]}")
 
@@ -66,13 +76,13 @@ def _process_member_dot_arg(tree: Tree):
         return f"{_process_primary(root)}.{terminal}"
 
     # TODO: Is this possible?
-    raise Exception(f"UNKNOWN MEMBER_DOT_ARG ROOT TYPE! {root}")
+    raise UnsupportedStructure(f"UNKNOWN MEMBER_DOT_ARG ROOT TYPE! {root}")
 
 
 def _process_member_index(tree: Tree):
     if len(tree.children) != 2:
         # TODO: Not sure this is possible?
-        raise Exception(f"UNKNOWN MEMBER_INDEX LENGTH! {len(tree.children)}: {tree}")
+        raise UnsupportedStructure(f"UNKNOWN MEMBER_INDEX LENGTH! {len(tree.children)}: {tree}")
 
     # print(f"{len(tree.children)}: {tree.children[0]}")
 
@@ -91,10 +101,10 @@ def _process_member_index(tree: Tree):
             terminal: Tree = terminal.children[0]
 
         if not terminal_value:
-            raise Exception(f"CAN NOT PROCESS MEMBER_INDEX terminal expr: {terminal}")
+            raise UnsupportedStructure(f"CAN NOT PROCESS MEMBER_INDEX terminal expr: {terminal}")
 
     else:
-        raise Exception(f"UNKNOWN MEMBER_INDEX terminal TYPE: {terminal}")
+        raise UnsupportedStructure(f"UNKNOWN MEMBER_INDEX terminal TYPE: {terminal}")
 
     root: Tree = tree.children[0].children[0]
 
@@ -107,14 +117,14 @@ def _process_member_index(tree: Tree):
     elif root.data == "primary":
         root_value: str = _process_primary(root)
     else:
-        raise Exception(f"UNKNOWN MEMBER_INDEX root TYPE: {root}")
+        raise UnsupportedStructure(f"UNKNOWN MEMBER_INDEX root TYPE: {root}")
 
     return f"{root_value}.{terminal_value}"
 
 
 def _process_primary(tree: Tree) -> str:
     if len(tree.children) != 1:
-        raise Exception(f"UNKNOWN PRIMARY LENGTH! {len(tree.children)}: {tree}")
+        raise UnsupportedStructure(f"UNKNOWN PRIMARY LENGTH! {len(tree.children)}: {tree}")
 
     primary: Tree = tree.children[0]
 
@@ -129,4 +139,4 @@ def _process_primary(tree: Tree) -> str:
             return literal.value
         return literal.strip(literal[0])
 
-    raise Exception(f"UNKNOWN PRIMARY DATA TYPE! {primary}")
+    raise UnsupportedStructure(f"UNKNOWN PRIMARY DATA TYPE! {primary}")
